@@ -49,10 +49,11 @@ Inductive policy :=
 | PNoStoreMaxAge (n : Z)   (* Cache-Control: no-store, max-age=n *)
 | PMustRevalidate (n : Z)  (* Cache-Control: must-revalidate, max-age=n *)
 | PNoCacheMaxAge (n : Z)   (* Cache-Control: no-cache, max-age=n *)
-| PRaw (id : Z).           (* any other header set, known to the model only by a number: other letter
-                              case (No-Cache, NO-STORE, MAX-AGE=..), white space, quoted arguments,
-                              several Cache-Control lines (joined by the loader before the library
-                              sees them); its text lives in the harness *)
+| PRaw (h : list (list Z)).
+    (* any other set of Cache-Control header LINES, in the order of the response.  The text of a line
+       is known to the model only as a sequence of numbers (one number per original header line; a
+       longer sequence is the comma-joined text of those lines); the strings live in the harness:
+       other letter case (No-Cache, NO-STORE, MAX-AGE=..), white space, quoted arguments *)
 
 (* The answers of the library for a header set, as the loader uses them.  The loader first joins
    several Cache-Control header lines into one comma separated line (fix f797550), so the library
@@ -105,9 +106,25 @@ Record config := {
                                    cacheobject.ParseResponseCacheControl *)
 }.
 
-Definition cc_store (cfg : config) (p : policy) : bool := fst (fst (cc cfg p)).
-Definition cc_lifetime (cfg : config) (p : policy) : option Z := snd (fst (cc cfg p)).
-Definition cc_nocache (cfg : config) (p : policy) : bool := snd (cc cfg p).
+(* `if cc := res.Header.Values("Cache-Control"); len(cc) > 1 { res.Header.Set("Cache-Control",
+   strings.Join(cc, ", ")) }` (fix f797550): several lines become ONE line, their comma-joined text *)
+Definition join_cc (h : list (list Z)) : list (list Z) :=
+  if (1 <? List.length h)%nat then [List.concat h] else h.
+
+(* Header.Get("Cache-Control"), which is all the library and requiresRevalidation read: the first line *)
+Definition first_line (h : list (list Z)) : list Z :=
+  match h with [] => [] | l :: _ => l end.
+
+(* the header set as the library gets to see it *)
+Definition lib_view (p : policy) : policy :=
+  match p with
+  | PRaw h => PRaw [first_line (join_cc h)]
+  | q => q
+  end.
+
+Definition cc_store (cfg : config) (p : policy) : bool := fst (fst (cc cfg (lib_view p))).
+Definition cc_lifetime (cfg : config) (p : policy) : option Z := snd (fst (cc cfg (lib_view p))).
+Definition cc_nocache (cfg : config) (p : policy) : bool := snd (cc cfg (lib_view p)).
 
 (* the loader's shouldCache: err == nil && len(reasons) == 0 && !requiresRevalidation(res.Header) *)
 Definition storable (cfg : config) (p : policy) : bool := cc_store cfg p && negb (cc_nocache cfg p).
